@@ -73,7 +73,11 @@ func (e *enc) entryEnv() *Env {
 // whose invariant mentions it; it is usable wherever its definition dominates).
 func (e *enc) collectDebugRefs() {
 	e.dbgObj = map[ssa.Value]map[string]types.Object{}
-	for _, b := range e.fn.Blocks {
+	e.collectDebugRefsIn(e.fn)
+}
+
+func (e *enc) collectDebugRefsIn(fn *ssa.Function) {
+	for _, b := range fn.Blocks {
 		for _, in := range b.Instrs {
 			x, ok := in.(*ssa.DebugRef)
 			if !ok {
@@ -348,7 +352,10 @@ func (e *enc) block(b *ssa.BasicBlock) {
 		}
 		ins = append(ins, inc{p, e.edgeCond(p, b), i})
 	}
-	if b.Index == 0 {
+	if len(e.inl) > 0 && e.inl[len(e.inl)-1].entry == b {
+		// entry block of a helper encoded in place: reached when the call is, in the state at the call
+		e.reach[b] = e.inl[len(e.inl)-1].reach
+	} else if b.Index == 0 {
 		e.reach[b] = "true"
 	} else {
 		if len(ins) == 0 {
@@ -805,7 +812,11 @@ func (e *enc) instr(in ssa.Instruction) {
 		// source names are collected up front (collectDebugRefs)
 	case *ssa.If, *ssa.Jump:
 	case *ssa.Return:
-		e.ret(x)
+		if len(e.inl) > 0 {
+			e.inlineReturn(x)
+		} else {
+			e.ret(x)
+		}
 	case *ssa.UnOp:
 		e.unop(x)
 	case *ssa.BinOp:
@@ -1720,6 +1731,9 @@ func (e *enc) pickNamed(name string, vs []ssa.Value, at *ssa.BasicBlock, strict 
 			continue
 		}
 		in, isInstr := v.(ssa.Instruction)
+		if pm, isParam := v.(*ssa.Parameter); isParam && at != nil && pm.Parent() != at.Parent() {
+			continue // parameter of another function (caller / inlined helper)
+		}
 		if !isInstr || in.Block() == nil {
 			if best == nil {
 				best = v
@@ -1727,6 +1741,9 @@ func (e *enc) pickNamed(name string, vs []ssa.Value, at *ssa.BasicBlock, strict 
 			continue
 		}
 		b := in.Block()
+		if at != nil && b.Parent() != at.Parent() {
+			continue // a value of another function (caller of / helper inlined into this one): not comparable by dominance
+		}
 		if at != nil && (!b.Dominates(at) || (strict && b == at)) {
 			continue
 		}
